@@ -217,6 +217,9 @@ func stressTunnel(kind, scenario string, g *gwServer, host *hostListener, id int
 		cl.send(mkPacket(tData, bodyData(bytes.Repeat([]byte{byte(k)}, 100))))
 		if scenario == "keepalives" {
 			cl.send(mkPacket(tKeepalive, nil))
+			if w, ok := cl.(*wsClient); ok && k%3 == 0 {
+				w.sendFrame(0x89, []byte("ping")) // a websocket-level ping (clients and proxies send them)
+			}
 		}
 	}
 	time.Sleep(time.Duration(2+id%5) * time.Millisecond)
